@@ -16,6 +16,80 @@ LEVEL = dict(
 )
 
 
+def _member_sig(b, o, depth=6):
+    """what one alternative of an `alt((..))` consumes, without what it returns: tag(k) -> ('tag', k), a parser function ->
+    ('fn', name); map / value / recognize / cut wrappers are looked through."""
+    from mir import op_place, op_const
+    for _ in range(depth):
+        k = op_const(o)
+        if k is not None:
+            return ("fn", (k.get("res") or k.get("fn") or str(k)).rsplit("::", 1)[-1]) if "fn" in k else ("const", str(k))
+        q = op_place(o)
+        d = b.single_def(q["l"]) if q is not None and not q["p"] else None
+        if d is None:
+            return ("?", b.sname(o, 3))
+        if d[2] == "rv" and d[3]["k"] in ("use", "cast"):
+            o = d[3]["o"]
+            continue
+        if d[2] == "call":
+            short = (d[3]["f"].get("fn") or "").rsplit("::", 1)[-1]
+            if short in ("map", "value", "recognize", "cut", "map_res", "map_opt", "into") and d[3]["args"]:
+                o = d[3]["args"][-1] if short == "value" else d[3]["args"][0]
+                continue
+            if short in ("tag", "tag_no_case", "one_of", "is_a", "char") and d[3]["args"]:
+                return (short, lib._const_bytes_through(b, d[3]["args"][0]))
+            return ("call", short)
+        return ("?", b.sname(o, 3))
+    return ("?", "deep")
+
+
+def twin_parsers(ctx, F, prefix="parser::cmap_parser::"):
+    """`x0` and `x1` (zero-or-more and one-or-more of the same thing) accept the same alternatives: a token that may be followed by
+    `x0` and one that must be followed by `x1` are separated by the same white space."""
+    names = {}
+    for p_, b in F.bodies.items():
+        fn = F.canon_of(b)
+        if fn.startswith(prefix) and "{closure" not in fn:
+            names[fn] = b
+    n = 0
+    for fn, b0 in sorted(names.items()):
+        if not fn.endswith("0") or fn[:-1] + "1" not in names:
+            continue
+        b1 = names[fn[:-1] + "1"]
+        sigs = []
+        for b in (b0, b1):
+            sg = set()
+            for c in b.calls:
+                if (c.fn or "").endswith("branch::alt") and c.args:
+                    d = b.def_rv(c.args[0])
+                    if d and d[2] == "rv" and d[3]["k"] == "agg":
+                        sg |= {_member_sig(b, o) for o in d[3]["ops"]}
+            sigs.append(sg)
+        if not sigs[0] and not sigs[1]:
+            continue
+        n += 1
+        ctx.ob("R-SIB", "twin-parsers|%s" % fn[:-1].rsplit("::", 1)[-1], sigs[0] == sigs[1], "%s and %s accept the same alternatives (%d)" % (fn, fn[:-1] + "1", len(sigs[0])), b1.where(),
+               what="%s and %s no longer accept the same alternatives (only in the first: %s; only in the second: %s): what is white space after one token is not after another"
+                    % (fn, fn[:-1] + "1", sorted(map(str, sigs[0] - sigs[1])), sorted(map(str, sigs[1] - sigs[0]))))
+    ctx.floor("R-SIB", "zero-or-more / one-or-more parser twins in %s" % prefix, n, 2)
+
+
+def put_precondition(ctx, F, R="R-WHO"):
+    """RangeInclusiveMap::insert panics when the range is reversed: every `put` of a range read from the file stands behind
+    the rejection of end < start (also part of the no-panic properties C04 and C13)."""
+    import inv
+    fs = F.fn("ToUnicodeCMap::from_sections")
+    put = lib.local_calls(F, fs, "ToUnicodeCMap::put")
+    ctx.floor(R, "ToUnicodeCMap::put calls in from_sections", len(put), 1)       # one per kind of target, or one for all
+    for c in put:
+        gs = inv.rendered_guards(fs, c.bb)
+        lo_, hi_ = (fs.oname(c.args[1], 3).strip("&*"), fs.oname(c.args[2], 3).strip("&*")) if len(c.args) >= 3 else ("?", "?")
+        # !(hi < lo), spelt either way round
+        ok = any((gd == "Lt(%s,%s)" % (hi_, lo_) and tr is False) or (gd == "Gt(%s,%s)" % (lo_, hi_) and tr is False)
+                 or (gd == "Le(%s,%s)" % (lo_, hi_) and tr is True) or (gd == "Ge(%s,%s)" % (hi_, lo_) and tr is True) for gd, tr in gs)
+        ctx.ob("R-GUARD", "end-not-before-start|%d" % put.index(c), ok, "put is dominated by !(end < start)", fs.where(c.ln), what="from_sections inserts a range without rejecting end < start first (RangeInclusiveMap::insert panics on it)")
+
+
 def run(ctx):
     F = ctx.facts("default")
     R = "R-WHO"
@@ -57,12 +131,8 @@ def run(ctx):
     wa = [c for b in gcl for c in b.calls if re.search(r"num::<impl u32>::wrapping_add$", c.fn or "")]
     ctx.ob(R, "offset-applied|get", len(wa) == 1, "get computes code + offset for UTF16CodePoint", g.where(), what="get no longer adds the stored offset to the code")
     # 3. precondition of the map
-    put = lib.local_calls(F, fs, "ToUnicodeCMap::put")
-    ctx.floor(R, "ToUnicodeCMap::put calls in from_sections", len(put), 3)
-    for c in put:
-        gs = inv.rendered_guards(fs, c.bb)
-        ok = any(re.match(r"^Lt\(end,start\)$", gd) and tr is False for gd, tr in gs)
-        ctx.ob("R-GUARD", "end-not-before-start|%d" % put.index(c), ok, "put is dominated by !(end < start)", fs.where(c.ln), what="from_sections inserts a range without rejecting end < start first (RangeInclusiveMap::insert panics on it)")
+    put_precondition(ctx, F)
+    twin_parsers(ctx, F)
     # 4. file order, overwrite
     pb_ = F.fn("ToUnicodeCMap::put")
     pscope = lib.local_scope(F, pb_)
@@ -182,3 +252,17 @@ def run(ctx):
     tu_der = [c for x in lib.local_scope(F, gfe) for c in x.calls if c.local and re.search(r"Dictionary::get_deref$", c.cname) and any(lib._const_bytes_through(x, a) == b"ToUnicode" for a in c.args[1:])]
     ctx.ob("R-WHO", "tounicode-behind-a-reference", len(tu_der) >= 1 and not tu_raw, "ToUnicode is fetched with get_deref (%d place(s))" % len(tu_der), gfe.where(tu_raw[0].ln if tu_raw else None),
            what="get_font_encoding reads /ToUnicode without resolving the reference it is held by: the CMap is skipped and the text is decoded with a default one-byte encoding")
+    # ... and it is looked for before giving up: a one-byte table chosen without a matching /Encoding name (the fallback for a font
+    # whose /Encoding is absent or a dictionary) stands behind a lookup of /ToUnicode
+    fallbacks = 0
+    unasked = []
+    for bi, si, st_ in gfe.stmts():
+        rv = st_.get("rv")
+        if rv and rv["k"] == "agg" and rv["kind"].get("var") == "OneByteEncoding":
+            if any(k.startswith("match:") for k in lib.slice_matches(gfe, bi)):
+                continue
+            fallbacks += 1
+            if not any(c.bb == bi or gfe.dominates(c.bb, bi) for c in tu_der if c in gfe.calls):
+                unasked.append(st_["ln"])
+    ctx.ob("R-ORDER", "tounicode-before-fallback", fallbacks >= 1 and not unasked, "the fallback encoding (%d place(s)) is chosen only after /ToUnicode was looked up" % fallbacks, gfe.where(unasked[0] if unasked else None),
+           what="get_font_encoding falls back to a default one-byte encoding (line %s) without having looked for /ToUnicode: a font whose /Encoding is absent or a dictionary is decoded through StandardEncoding although it carries a CMap" % unasked)
